@@ -1,5 +1,6 @@
 """C02 — construction order of every hash input / encoding against RFC 9591 (and BIP-340 for the Taproot suite)."""
 from ..lib import *
+from ..hashes import digest_nf, find_digest
 from ..terms import TermCx, fmt, short
 from ..seq import flatten
 from .c04 import next_item, tfield
@@ -18,6 +19,13 @@ SUITES = {
 TAGS = {"H1": "rho", "H2": "chal", "H3": "nonce", "H4": "msg", "H5": "com", "HDKG": "dkg", "HID": "id", "hash_randomizer": "randomizer"}
 # RFC exceptions for H2
 H2_EXC = {"frost_ed25519": [], "frost_ed448": ['b"SigEd448\\x00\\x00"'], "frost_secp256k1_tr": "BIP0340/challenge"}
+
+
+# hash algorithm per suite (self type of the hasher) and what the scalar-valued hashes do with the digest
+ALGO = {"frost_ed25519": "sha2::Sha512", "frost_ristretto255": "sha2::Sha512", "frost_ed448": "shake::Shake<136>",
+        "frost_p256": "sha2::Sha256", "frost_secp256k1": "sha2::Sha256", "frost_secp256k1_tr": "sha2::Sha256"}
+REDUCE = {"frost_ed25519": ["from_bytes_mod_order_wide"], "frost_ristretto255": ["from_bytes_mod_order_wide"],
+          "frost_ed448": ["from_bytes_mod_order_wide"]}
 
 
 def bytes_const(t):
@@ -296,19 +304,21 @@ def run(ctx):
                     ctx.check(good, "SEQ", key, "BIP340-tagged-hash(challenge)",
                               "BIP-340: e = SHA256(SHA256(tag)||SHA256(tag)||m) with tag \"%s\": %s" % (exc, fmt(t)[:160]), f.loc)
                     continue
-                arr = [s for s in subterms(t) if s[0] == "agg" and s[1] == "array"]
-                parts = [x for _, x in arr[0][4]] if arr else []
-                good = len(parts) == len(exc) + 1 and parts[-1] == ("arg", 1) and [bytes_const(p) for p in parts[:-1]] == exc
+                chain, nf = find_digest(P, t)
+                parts = nf["parts"] if nf else []
+                good = nf is not None and nf["algo"] == ALGO[crate] and chain == REDUCE[crate] and \
+                    len(parts) == len(exc) + 1 and parts[-1] == ("arg", 1) and [bytes_const(p) for p in parts[:-1]] == exc
                 ctx.check(good, "SEQ", key, "H2-RFC8032-compatible",
                           "RFC 9591 §6.1/§6.3: H2 of %s hashes %s || m without contextString; found %s" % (crate, exc, [fmt(p)[:40] for p in parts]), f.loc)
                 continue
             if style == "list" or hname in ("H4", "H5"):
-                arr = [s for s in subterms(t) if s[0] == "agg" and s[1] == "array"]
-                parts = [x for _, x in arr[0][4]] if arr else []
-                good = len(parts) == 3 and ctxs(parts[0]) and bytes_const(parts[1]) == want_tag and parts[2] == ("arg", 1)
-                callee = "hash_to_array" if hname in ("H4", "H5") else "hash_to_scalar"
-                good = good and mentions(t, lambda s: is_call(s, name="hash_to_array") and s[1].startswith(crate)) and \
-                    (hname in ("H4", "H5")) == (is_call(t, name="hash_to_array"))
+                # digest normal form (sa/hashes.py): the algorithm, the ordered preimage parts, and what is done with the digest
+                chain, nf = find_digest(P, t)
+                parts = nf["parts"] if nf else []
+                good = nf is not None and nf["algo"] == ALGO[crate] and len(parts) == 3 and ctxs(parts[0]) and \
+                    bytes_const(parts[1]) == want_tag and parts[2] == ("arg", 1)
+                # H4/H5 return the digest itself; the scalar-valued ones reduce the (wide) digest modulo the group order
+                good = good and chain == ([] if hname in ("H4", "H5") else REDUCE[crate])
             else:
                 good = is_call(t, name="hash_to_scalar") and t[1].startswith(crate) and t[2][1] == ("arg", 1)
                 if good:
@@ -321,12 +331,12 @@ def run(ctx):
         # hash_to_array feeds every input, in order
         f = ctx.anchor(crate + "::hash_to_array")
         if f:
-            lr = reductions(ctx, f.key, adaptors={}, min_loops=1)
+            reductions(ctx, f.key, adaptors={}, min_loops=0)
             v = FnView.get(P, f)
-            t = v.cx.local(0)
-            upd = [s for s in subterms(t) if s[0] == "op" and s[1] == "update"]
-            good = bool(lr) and lr[0]["iter_term"] == ("iter", ("arg", 1)) and len(upd) == 1 and next_item(arg(1))(upd[0][2][0])
-            ctx.check(good, "RED", f.key, "update(each input in order)", "hash_to_array must feed every input slice, in order, to one hasher", f.loc)
+            nf = digest_nf(P, v.cx.local(0))
+            good = nf is not None and nf["algo"] == ALGO[crate] and nf["parts"] == [("each", ("arg", 1))]
+            ctx.check(good, "RED", f.key, "update(each input in order)", "hash_to_array must feed every input slice, in order, to one "
+                      "fresh %s hasher and return its digest (found %s)" % (ALGO[crate], nf and (nf["algo"], [fmt(p)[:40] for p in nf["parts"]])), f.loc)
         if style == "dst":
             f = ctx.anchor(crate + "::hash_to_scalar")
             if f:
